@@ -1,5 +1,5 @@
 """C05 — output always well-formed; safe APIs never leave an invalid str or String (structural clauses)."""
-import r_strsafe, r_writers, r_handle
+import r_strsafe, r_writers, r_handle, r_inv
 import p_c10
 
 MANIFEST = {
@@ -33,6 +33,7 @@ def run(rep, facts, tier):
             r_strsafe.set_len(rep, f, c, 'R-STRSAFE.set_len')
             r_strsafe.unchecked_str(rep, f, c, 'R-STRSAFE.unchecked')
         r_writers.run(rep, f, c, 'C05-D4')
+        r_inv.run(rep, f, c, 'R-INV')
         # whole characters only: handle discipline (shared with C06)
         r_handle.run(rep, f, c)
         # D5: Finished => panic with nothing done before
